@@ -84,8 +84,10 @@ CLAIMS.update({
         "DESIGN.md C08"),
     "C11": (
         "For every u16: OsCode::from_u16/as_u16 are inverse, the transmute to the internal KeyCode yields a declared variant with the same numeric value (checked with "
-        "-Z valid-value-checks) and converts back to the same OsCode; modifier classification is exactly the 8 modifier codes.",
-        "Linux tables (this sandbox's target). Key names (str_to_oscode), the defsrc identity layer, the ignored output range and the mapped-key set are outside.",
+        "-Z valid-value-checks) and converts back to the same OsCode; modifier classification is exactly the 8 modifier codes. "
+        "The reserved no-op codes nop0..nop9 reach no output-device method on any of the three output paths (write_key = OS repeat path, press_key, release_key), every other known code "
+        "reaches exactly one with the same numeric value (device methods and post_filter_* are recording stubs).",
+        "Linux tables (this sandbox's target). Key names (str_to_oscode), the defsrc identity layer (thorough tier only), the uinput device itself and the mapped-key set are outside.",
         "DESIGN.md C11"),
     "C12": (
         "Only the modifier/overlap bit encoding used for sequence keys: masks never touch the key-code bits, classes have distinct single bits, every key code fits below them "
